@@ -16,6 +16,10 @@ package main
 //   exp-interleaved  2-3 experimental-engine peers connected AT THE SAME TIME (own checkpoint tracker each, shared store), batches
 //            interleaved by the script: peer A passes checkpoint k, then peer B delivers a header contradicting k (stale, or with
 //            0..2 children, reorg-winning or not), or a forbidden one, or is an honest lagging peer (also announcing a new block)
+//   cp-restart  the initial store already reaches ABOVE the last (or an inner) checkpoint - the state after a restart; a peer then
+//            delivers a side branch that forks off below a checkpoint (light or heavy, as a reply or pushed), both engines
+//   takeover  past the last checkpoint / without checkpoints / checkpoints disabled: the sync peer sends a forbidden or a
+//            checkpoint-contradicting header and is dropped; an honest peer takes over and must be synced from (last clause of C07)
 //   random   seeded mixtures of the above ingredients
 
 import (
@@ -398,6 +402,82 @@ func runC07(c *Ctx) error {
 				sc := &Scenario{Eng: "x", Cps: cps, U: u, Nodes: []*nodeSpec{n1, n2}, Cmds: cmds}
 				if err := g.do(sc, "exp-interleaved-honest"); err != nil {
 					return err
+				}
+			}
+		}
+	}
+
+	// ---- cp-restart: the store starts above the last / an inner checkpoint; a fork across a checkpoint height arrives ----
+	for _, eng := range engines {
+		gl := 7
+		for _, heavy := range []bool{false, true} {
+			for _, flen := range []int{1, 2, 5} { // fork length (from height 2 on)
+				u := &History{}
+				u.Subs = append(u.Subs, linearSubs(100, genesisID, gl, bitsW2, tsOld)...)
+				bits := bitsW2
+				if heavy {
+					bits = bitsW8
+				}
+				u.Subs = append(u.Subs, linearSubs(200, 100, flen, bits, tsOld)...) // forks off after height 1
+				good := seqInts(100, gl)
+				fork := catInts(good[:1], seqInts(200, flen))
+				for _, cps := range [][]cpSpec{{{2, good[1]}}, {{2, good[1]}, {6, good[5]}}, {{1, good[0]}, {3, good[2]}}} {
+					for _, k0 := range []int{3, 4} { // initial store: good[:k0]
+						nF := &nodeSpec{P: 1, Cap: 2000, Chain: fork}
+						nFp := &nodeSpec{P: 1, Cap: 2000, Chain: good[:1], Reserve: seqInts(200, flen)}
+						nH := &nodeSpec{P: 2, Cap: 2000, Chain: good}
+						// the fork peer alone (as reply if it is asked at all), and pushing its branch unsolicited
+						sc := &Scenario{Eng: eng, Cps: cps, U: u, Init: good[:k0], Nodes: []*nodeSpec{nF}, Cmds: []string{"C1", "R30"}}
+						if err := g.do(sc, "cp-restart"); err != nil {
+							return err
+						}
+						sc = &Scenario{Eng: eng, Cps: cps, U: u, Init: good[:k0], Nodes: []*nodeSpec{nFp}, Cmds: []string{"C1", "R30", fmt.Sprintf("A1.%d.h", flen), "R30"}}
+						if err := g.do(sc, "cp-restart"); err != nil {
+							return err
+						}
+						// with an honest peer, before and after
+						for _, cmds := range [][]string{{"C2", "R30", "C1", fmt.Sprintf("A1.%d.h", flen), "R30"}, {"C1", fmt.Sprintf("A1.%d.h", flen), "R30", "C2", "R30"}} {
+							sc = &Scenario{Eng: eng, Cps: cps, U: u, Init: good[:k0], Nodes: []*nodeSpec{nFp, nH}, Cmds: cmds}
+							if err := g.do(sc, "cp-restart"); err != nil {
+								return err
+							}
+						}
+					}
+				}
+			}
+		}
+	}
+
+	// ---- takeover: no checkpoint ahead when the sync peer is dropped; an honest peer must be synced from afterwards ----
+	for _, a := range []int{1, 3} {
+		for _, k := range []int{1, 3} {
+			u, pre, good, bad := forkUniverse(a, k+3, k, tsOld)
+			type tv struct {
+				dis  bool
+				cps  []cpSpec
+				forb []int
+				tag  string
+			}
+			variants := []tv{
+				{false, nil, []int{bad[k-1]}, "no checkpoints, forbidden"},
+				{true, []cpSpec{{1, 999}}, []int{bad[0]}, "checkpoints disabled, forbidden"},
+				{false, []cpSpec{{1, pre[0]}}, []int{bad[k-1]}, "past the last checkpoint, forbidden"},
+				{false, []cpSpec{{a, pre[a-1]}, {a + 1, good[0]}}, nil, "contradicts the last checkpoint"},
+			}
+			for _, v := range variants {
+				uu := &History{Subs: u.Subs, Forbidden: v.forb}
+				n1 := &nodeSpec{P: 1, Cap: 2000, Chain: catInts(pre, bad)}
+				n2 := &nodeSpec{P: 2, Cap: 2000, Chain: catInts(pre, good)}
+				n3 := &nodeSpec{P: 3, Cap: 1, Chain: catInts(pre, good)}
+				for _, cmds := range [][]string{{"C1", "C2", "R60"}, {"C1", "R40", "C2", "R60"}, {"C1", "C3", "R90"}} {
+					nodes := []*nodeSpec{n1, n2}
+					if cmds[1] == "C3" {
+						nodes = []*nodeSpec{n1, n3}
+					}
+					sc := &Scenario{Eng: "d", Dis: v.dis, Cps: v.cps, U: uu, Nodes: nodes, Cmds: cmds}
+					if err := g.do(sc, "takeover"); err != nil {
+						return err
+					}
 				}
 			}
 		}
